@@ -15,6 +15,10 @@ import vlib
 # AtomicReg = keep-check .. register is one critical section
 FIX_STALE = True
 ATOMIC_REG = True
+# FixIntent = an outbound connection is only registered while the peer is still paired / queued
+FIX_INTENT = True
+# FixShut = no connection is registered once the hub is shut down
+FIX_SHUT = True
 
 
 def collect(prop, tier):
@@ -27,8 +31,9 @@ def collect(prop, tier):
         binp = vlib.build_harness(sc, "hub2")
         b = lambda x: "TRUE" if x else "FALSE"
         with open(os.path.join(sd, "Hub2_M.cfg"), "w") as f:
-            f.write("SPECIFICATION Spec\nCONSTANTS MaxC = %d\n MaxDisturb = %d\n AtomicReg = %s\n FixStale = %s\n EmitMode = \"none\"\n SimDepth = 0\n"
-                    "INVARIANT P_C05\nINVARIANT NoOrphan\nCHECK_DEADLOCK FALSE\n" % (3 if q else 4, 1 if q else 2, b(ATOMIC_REG), b(FIX_STALE)))
+            f.write("SPECIFICATION Spec\nCONSTANTS MaxC = %d\n MaxDisturb = %d\n AtomicReg = %s\n FixStale = %s\n FixIntent = %s\n FixShut = %s\n Rich = TRUE\n EmitMode = \"none\"\n SimDepth = 0\n"
+                    "INVARIANT P_C05\nINVARIANT NoOrphan\nINVARIANT P_C10_trust\nINVARIANT P_C10_shut\nCHECK_DEADLOCK FALSE\n"
+                    % (3 if q else 4, 2, b(ATOMIC_REG), b(FIX_STALE), b(FIX_INTENT), b(FIX_SHUT)))
         m = vlib.tlc(sd, "Hub2", cfg="Hub2_M.cfg", workers=8, timeout=3000)
         if m["error"] and not m["violated"]:
             raise vlib.Infra("TLC error in Hub2: %s\n%s" % (m["error"], m["tail"]))
@@ -39,14 +44,18 @@ def collect(prop, tier):
         else:
             print("stage M: Hub2, %d states generated, %d distinct" % (m["states"], m["distinct"]))
         depth = 40
-        with open(os.path.join(sd, "Hub2_G.cfg"), "w") as f:
-            f.write("SPECIFICATION Spec\nCONSTANTS MaxC = 6\n MaxDisturb = 3\n AtomicReg = FALSE\n FixStale = FALSE\n EmitMode = \"final\"\n SimDepth = %d\n"
-                    "ACTION_CONSTRAINT Emit\nCHECK_DEADLOCK FALSE\n" % depth)
-        g = vlib.tlc(sd, "Hub2", cfg="Hub2_G.cfg", workers=1, timeout=900, simulate="num=%d" % (300 if q else 3000), depth=depth, tlc_seed=seed)
-        if g["error"]:
-            raise vlib.Infra("TLC error generating from Hub2: %s\n%s" % (g["error"], g["tail"]))
+        outs = []
+        for rich in ("FALSE", "TRUE"):
+            with open(os.path.join(sd, "Hub2_G%s.cfg" % rich), "w") as f:
+                f.write("SPECIFICATION Spec\nCONSTANTS MaxC = 6\n MaxDisturb = 3\n AtomicReg = FALSE\n FixStale = FALSE\n FixIntent = FALSE\n FixShut = FALSE\n Rich = %s\n EmitMode = \"final\"\n SimDepth = %d\n"
+                        "ACTION_CONSTRAINT Emit\nCHECK_DEADLOCK FALSE\n" % (rich, depth))
+            g = vlib.tlc(sd, "Hub2", cfg="Hub2_G%s.cfg" % rich, workers=1, timeout=900, simulate="num=%d" % (300 if q else 3000), depth=depth,
+                         tlc_seed=seed + (7 if rich == "TRUE" else 0))
+            if g["error"]:
+                raise vlib.Infra("TLC error generating from Hub2: %s\n%s" % (g["error"], g["tail"]))
+            outs.append(list(vlib.tlc_lines(g["out_path"], "TEST")))
         scripts, seen = [], set()
-        for sc_ops in vlib.tlc_lines(g["out_path"], "TEST"):
+        for sc_ops in outs[0] + outs[1]:
             ops = []
             for o in sc_ops:
                 if o["quiet"] and ops:
